@@ -249,9 +249,9 @@ def r2_lookup_order(ctx, rep):
     # (f'') a source file has a page only when incl_src is on (FortranSourceFile.visible records exactly that): the href of a
     # [[file]] reference must depend on it, otherwise the link points at a page that is never written
     for h in hrefs:
-        ok = any("visible" in c for c in h.cond_texts())
+        ok = any("visible" in c or "incl_src" in c for c in h.cond_texts_x(fn))
         rep.ob("a reference to a source file is only linked when source pages are written", ok,
-               "the href is set under a condition on the item's `visible` flag" if ok else
+               "the href is set under a condition on `incl_src` / the item's `visible` flag" if ok else
                "the href is set for every item found: with `incl_src: false`, `[[prog.f90]]` links to sourcefile/prog.f90.html, which is "
                "not generated", py.nloc(h.node), nontrivial=not ok)
     # (g) the link is relative to the page being converted, external URLs stay absolute
